@@ -750,9 +750,15 @@ class FuncFlow:
             body_in.loops = entry.loops + ((s, entry.env, set(entry.facts)),)
             bind(body_in)
             self._continue_states[-1] = []
-            brk_before = len(self._break_states[-1])
-            if it == 1:
+            if it == 0:
+                marks = (len(self.stores), len(self.calls), len(self.registrations), len(self.exits))
+            else:
+                # the first pass only served to widen the loop-carried values: drop what it recorded
                 del self._break_states[-1][:]
+                del self.stores[marks[0]:]
+                del self.calls[marks[1]:]
+                del self.registrations[marks[2]:]
+                del self.exits[marks[3]:]
             out = self.run_block(s.body, body_in)
             back = out.normal
             for c in self._continue_states[-1]:
